@@ -170,6 +170,51 @@ class Canon:
                            for n, t in sorted(self.ir.aux_data.items())}}
 
 
+def module_facets(ir, m):
+    """facets of ONE module of an IR (a module the rewrite is not about):
+    rendered with this module's nodes only, so that equal-looking nodes of
+    another module cannot stand in for them; UUIDs are kept (nothing in a
+    bystander may be re-created)"""
+    c = Canon(ir)
+    c.index(m)
+    own = {id(p) for p in m.proxies} | {id(b) for b in m.byte_blocks}
+    fac = {"entry": c.node(m.entry_point) if m.entry_point else None,
+           "name-isa-format": [m.name, str(m.isa), str(m.file_format),
+                               str(m.byte_order)]}
+    byts, blocks, exprs = [], [], []
+    for s in sorted(m.sections, key=lambda s: s.name):
+        for bi in sorted(s.byte_intervals, key=lambda b: c.ids[id(b)]):
+            byts.append([s.name, sorted(str(f) for f in s.flags), bi.address,
+                         bi.size, bi.initialized_size,
+                         bytes(bi.contents).hex(), str(bi.uuid)])
+            blocks += [[s.name, c.ids[id(bi)][2], b.offset, b.size,
+                        type(b).__name__, str(getattr(b, "decode_mode", "")),
+                        str(b.uuid)] for b in bi.blocks]
+            exprs += [[s.name, c.ids[id(bi)][2], o, c.expr(e)]
+                      for o, e in bi.symbolic_expressions.items()]
+    fac["bytes"] = byts
+    fac["blocks"] = sorted(blocks, key=repr)
+    fac["exprs"] = sorted(exprs, key=repr)
+    fac["symbols"] = sorted(
+        [[s.name, c.node(s.referent) if s.referent is not None else (
+            ["value", s.value] if s.value is not None else None),
+          bool(s.at_end), str(s.uuid)] for s in m.symbols], key=repr)
+    fac["proxies"] = sorted(str(p.uuid) for p in m.proxies)
+    for name, t in m.aux_data.items():
+        fac["aux:" + name] = [t.type_name, c.value(t.data)]
+    edges = []
+    for e in ir.cfg:
+        if id(e.source) in own or id(e.target) in own:
+            lab = e.label
+            edges.append([c.node(e.source), c.node(e.target),
+                          str(lab.type) if lab else None,
+                          bool(lab.conditional) if lab else None,
+                          bool(lab.direct) if lab else None])
+    fac["cfg"] = sorted(edges, key=repr)
+    return {k: json.dumps(v, sort_keys=True, default=repr)
+            for k, v in fac.items()}
+
+
 def dumps(ir, **kw):
     return json.dumps(Canon(ir, **kw).dump(), sort_keys=True, default=repr)
 
